@@ -239,6 +239,35 @@ def run(ctx):
 
     drive.for_each_case(ctx, 'handmade', max(10, ctx.budget // 20), body3, gen=lambda c, r: Ty('int'))
 
+    # one conditioned type used again and again with equal values of different kinds, and with a predicate following outside state
+    # (round 11: a fast pass that remembers verdicts per value while the diagnostic pass asks afresh); the shadow monitor judges
+    # every call, an internal RuntimeError is reported here
+    def body4(i, rng, ty, T):
+        from .. import special
+        monitors.install()
+        for name, TT, steps in special.equal_value_sequences(rng):
+            place = rng.choice(('top', 'list', 'optional'))
+            WT = {'top': TT, 'list': t.List[TT], 'optional': t.Optional[TT]}[place]
+            drive.current['tskel'] = 'equal-values:' + name
+            drive.current['tdesc'] = f"{place}: Annotated[..., Condition({name})]"
+            history = []
+            for step in steps:
+                if step[0] == 'do':
+                    step[1]()
+                    history.append('state changed')
+                    continue
+                v = [step[1]] if place == 'list' else step[1]
+                drive.current['vdesc'] = short(v)
+                out = observe(env.from_data, v, WT)
+                ctx.count('equal_value_sequence_calls')
+                if out.kind == 'escape':
+                    ctx.violation('no-internal-RuntimeError', 'equal-values', i, {'condition': name, 'placed': place, 'earlier_calls_on_this_type': history[-8:], 'value': repr(v),
+                                                                                 'pane': out.brief()}, mech=f"equal-value-sequence:{type(out.exc).__name__}")
+                    return
+                history.append(repr(v))
+
+    drive.for_each_case(ctx, 'equal-values', 20, body4, gen=lambda c, r: Ty('int'))
+
     # container subclasses with validating constructors, dataclasses inheriting a validating hook (see pv/special.py)
     from .. import special
     cases = special.container_subclass_cases() + special.inherited_hook_cases() + special.protocol_cases() + special.attribute_tagged_cases() + special.tuple_layout_cases() + special.unhashable_key_cases()
@@ -266,6 +295,8 @@ def post_merge(counters, sets, tier):
             reasons.append(f"converter class {c}: no accepted call was shadowed")
         if pi == 0 and c != 'AnyConverter':
             reasons.append(f"converter class {c}: no rejected call was shadowed")
+    if counters.get('equal_value_sequence_calls', 0) < 1000:
+        reasons.append(f"only {counters.get('equal_value_sequence_calls', 0)} calls in the equal-value sequences")
     if counters.get('shadowed_calls', 0) < 20000:
         reasons.append(f"only {counters.get('shadowed_calls', 0)} shadowed calls")
     return reasons
